@@ -137,6 +137,8 @@ def gen_poolmix(seed, tier, o):
                 cfg["h2"]["events"] = evs
         if r.random() < o.get("p_srv_idle_close", 0.0):
             cfg["keepalive_timeout"] = r.choice([0.01, 0.1, 1.0])
+            if rsel.random() < 0.4:
+                cfg["idle_408"] = True
         eps[f"{h}:{443 if tls else 80}"] = cfg
     px = None
     if proxy_kind == "http":
